@@ -129,6 +129,13 @@ Example exn_sup_fit :
           [false; false; true; true; false] [false; false; false; false; false] [2; 3; 1; 4; 0].
 Proof. vm_compute. reflexivity. Qed.
 
+Example exn_prototypes :
+  n_status (find_prototypes Nat.ltb 1000 5 exn_w (nodes_init 0 ex_labels))
+  = [false; false; true; true; false] /\
+  n_pred (find_prototypes Nat.ltb 1000 5 exn_w (nodes_init 0 ex_labels))
+  = [None; Some 0; Some 1; Some 2; Some 3].
+Proof. vm_compute. split; reflexivity. Qed.
+
 Definition wn_ok (zero top : nat) (n : nat) (w : nat -> nat -> nat) : bool :=
   forallb (fun p => forallb (fun q =>
     Nat.eqb p q || (negb (Nat.ltb (w p q) zero) && Nat.ltb (w p q) top)) (seq 0 n)) (seq 0 n).
